@@ -607,6 +607,8 @@ func (c *checker) shrinkInter(in caseInput, f finding) (caseInput, finding) {
 // caseLabel: what was done to / with the base operation (part of the class).
 func caseLabel(in caseInput) string {
 	switch {
+	case in.ListMode > 0 && in.ListMode < len(listModeNames):
+		return "service list state: " + listModeNames[in.ListMode]
 	case in.Inter != nil:
 		return "two interleaved Loads on one instance (" + variantNames[in.Inter.VA] + " / " + variantNames[in.Inter.VB] + ")"
 	case len(in.History) > 0:
